@@ -63,6 +63,29 @@ impl DerefMut for ObjState {
     }
 }
 
+/// A 64-bit counter (ticks, nanoseconds ...): a float-like number whose conversion to f64 is lossy above 2^53.
+#[derive(Clone, Copy, Debug, PartialEq, PartialOrd, Serialize)]
+pub struct Ticks(pub u64);
+impl From<Ticks> for f64 {
+    fn from(t: Ticks) -> f64 {
+        t.0 as f64
+    }
+}
+#[derive(Tid)]
+pub struct TickState(pub Ticks);
+impl CustomState<'_> for TickState {}
+impl Deref for TickState {
+    type Target = Ticks;
+    fn deref(&self) -> &Ticks {
+        &self.0
+    }
+}
+impl DerefMut for TickState {
+    fn deref_mut(&mut self) -> &mut Ticks {
+        &mut self.0
+    }
+}
+
 fn problem() -> RealP {
     RealP::new(1, -1.0, 1.0, RealKind::Sphere)
 }
@@ -84,6 +107,8 @@ pub enum GridCase {
     LessThanIter { n: u32, v: u32 },
     LessThanEval { n: u32, v: u32 },
     LessThanF { n: Fb, v: Fb },
+    /// the bound on a user-defined 64-bit counter: decided in the counter's own order, not after conversion to f64
+    LessThanTicks { n: u64, v: u64 },
     EveryN { n: u32, v: u32 },
     Optimum { best: Option<Fb>, opt: Fb, eps: Fb },
     /// two OptimumReached conditions with different tolerances, both initialised on the same state (a loop condition
@@ -99,7 +124,7 @@ impl Check for GridCheck {
         "C10/grid".into()
     }
     fn classes(&self) -> &'static [&'static str] {
-        &["value == n (boundary)", "value > n", "multiple of n", "best within epsilon boundary", "no best yet", "true result"]
+        &["value == n (boundary)", "value > n", "multiple of n", "best within epsilon boundary", "no best yet", "true result", "bound and value differ but convert to the same f64"]
     }
     fn oracle(&self, c: &GridCase) -> Outcome {
         let mut cl = 0u64;
@@ -157,6 +182,28 @@ fn grid_oracle(c: &GridCase, cl: &mut u64) -> Result<(), Failure> {
             let prog = progress_bits::<ValueOf<FState>>(&st);
             let want_p = (v / n).to_bits();
             ensure_that!(prog == Some(want_p) || (f64::from_bits(want_p).is_nan() && prog.map(f64::from_bits).map_or(false, f64::is_nan)), "C10 LessThanN progress", "progress = {:?}, expected {:?}", prog.map(f64::from_bits), v / n);
+        }
+        GridCase::LessThanTicks { n, v } => {
+            let cond = LessThanN::new::<RealP>(Ticks(*n), ValueOf::<TickState>::new());
+            st.insert(TickState(Ticks(*v)));
+            cond.init(&p, &mut st).map_err(|e| Failure::new("C10 LessThanN init", format!("{e}")))?;
+            let got = eval_cond(cond.as_ref(), &p, &mut st);
+            if v == n {
+                *cl |= 1;
+            }
+            if v > n {
+                *cl |= 2;
+            }
+            if v != n && (*v as f64) == (*n as f64) {
+                *cl |= 64;
+            }
+            if v < n {
+                *cl |= 32;
+            }
+            ensure_that!(got == Ok(v < n), "C10 LessThanN truth value", "LessThanN({n}) on a 64-bit counter with value {v} = {got:?}, expected {}", v < n);
+            let prog = progress_bits::<ValueOf<TickState>>(&st);
+            let want_p = (*v as f64 / *n as f64).to_bits();
+            ensure_that!(prog == Some(want_p) || (f64::from_bits(want_p).is_nan() && prog.map(f64::from_bits).map_or(false, f64::is_nan)), "C10 LessThanN progress", "progress = {:?}, expected {:?}", prog.map(f64::from_bits), f64::from_bits(want_p));
         }
         GridCase::EveryN { n, v } => {
             let cond = EveryN::iterations::<RealP>(*n);
@@ -274,6 +321,13 @@ fn grid_cases() -> Vec<GridCase> {
             out.push(GridCase::LessThanF { n: Fb::of(n), v: Fb::of(v) });
         }
     }
+    for base in [0u64, 5, 1 << 53, 1 << 60, u64::MAX - 4] {
+        for dn in 0..4u64 {
+            for dv in 0..4u64 {
+                out.push(GridCase::LessThanTicks { n: base + dn, v: base + dv });
+            }
+        }
+    }
     for n in 1..=12u32 {
         for v in 0..=100u32 {
             out.push(GridCase::EveryN { n, v });
@@ -304,6 +358,7 @@ fn grid_strategy() -> impl Strategy<Value = GridCase> {
         (any::<u32>(), any::<u32>()).prop_map(|(n, v)| GridCase::LessThanIter { n, v }),
         (0u32..50, 0u32..60).prop_map(|(n, v)| GridCase::LessThanEval { n, v }),
         (-1e3f64..1e3, prop_oneof![8 => (-1e3f64..1e3).boxed(), 1 => Just(f64::NAN).boxed(), 1 => prop_oneof![Just(f64::INFINITY), Just(f64::NEG_INFINITY), Just(-0.0), Just(0.0)].boxed()]).prop_map(|(n, v)| GridCase::LessThanF { n: Fb::of(n), v: Fb::of(v) }),
+        (prop_oneof![Just(0u64), Just(1 << 53), Just(1 << 62), Just(u64::MAX - 600), any::<u64>().prop_map(|b| b.min(u64::MAX - 600))], 0u64..300, 0u64..300).prop_map(|(b, dn, dv)| GridCase::LessThanTicks { n: b + dn, v: b + dv }),
         (1u32..5000, any::<u32>()).prop_map(|(n, v)| GridCase::EveryN { n, v }),
         (1u32..50, 0u32..40).prop_map(|(n, k)| GridCase::EveryN { n, v: n.saturating_mul(k) }),
         (proptest::option::of(-1e3f64..1e3), -1e3f64..1e3, 0f64..10.0).prop_map(|(b, o, e)| GridCase::Optimum { best: b.map(Fb::of), opt: Fb::of(o), eps: Fb::of(e) }),
@@ -537,7 +592,7 @@ impl Check for ChangeCheck {
         "C10/change-of".into()
     }
     fn classes(&self) -> &'static [&'static str] {
-        &["value returns to an earlier value", "repeat of the same value", "delta checker", "sub-threshold drift accumulates", "objective-valued", "an evaluation with the source state missing", "an evaluation from inside a nested scope"]
+        &["value returns to an earlier value", "repeat of the same value", "delta checker", "sub-threshold drift accumulates", "objective-valued", "an evaluation with the source state missing", "an evaluation from inside a nested scope", "history also driven through a loop whose condition holds the ChangeOf"]
     }
     fn oracle(&self, c: &ChangeCase) -> Outcome {
         let mut cl = 0;
@@ -637,7 +692,59 @@ fn change_oracle(c: &ChangeCase, cl: &mut u64) -> Result<(), Failure> {
             );
         }
     }
+    // the same history as the condition of a real loop: `while changed & iterations < len { value = next }` makes as many
+    // passes as the history has leading reported changes (the loop initialises its condition once, on entry)
+    if !c.objective && c.missing.is_empty() && c.scoped.is_empty() && !c.values.is_empty() {
+        *cl |= 128;
+        let len = c.values.len();
+        let mut prev: Option<i64> = None;
+        let mut passes = 0u32;
+        for k in 0..=len {
+            let v = c.values[k.min(len - 1)];
+            let changed = match (prev, c.threshold) {
+                (None, _) => true,
+                (Some(pv), None) => pv != v,
+                (Some(pv), Some(t)) => (pv - v).abs() >= t,
+            };
+            if changed {
+                prev = Some(v);
+            }
+            if !(changed && k < len) {
+                break;
+            }
+            passes += 1;
+        }
+        let change: Box<dyn Condition<RealP>> = match c.threshold {
+            None => ChangeOf::new::<RealP>(PartialEqChecker::new::<i64>(), ValueOf::<T0>::new()),
+            Some(t) => ChangeOf::new::<RealP>(DeltaEqChecker::new(t), ValueOf::<T0>::new()),
+        };
+        let cfg = Configuration::builder().while_(change & LessThanN::iterations(len as u32), |b| b.do_(Box::new(NextValue(c.values.clone())))).build();
+        let first = c.values[0];
+        let res = catch(|| cfg.optimize_with(&p, |st| {
+            st.insert(T0(first));
+            Ok(())
+        }));
+        match res {
+            Ok(Ok(st)) => {
+                let it = st.try_get_value::<Iterations>().ok();
+                ensure_that!(it == Some(passes), "C10 loop over ChangeOf makes the wrong number of passes", "while ChangeOf({:?}) & iterations < {len} over the history {:?}: {it:?} passes, expected {passes}", c.threshold, c.values);
+            }
+            Ok(Err(e)) => fail!("C10 loop over ChangeOf fails", "history {:?}: {e:#}", c.values),
+            Err(pn) => fail!("C10 loop over ChangeOf panics", "history {:?}: {pn}", c.values),
+        }
+    }
     Ok(())
+}
+
+/// Loop body of the ChangeOf loop: after pass i the observed value is history[i + 1] (the last one repeats).
+#[derive(Clone, Serialize)]
+struct NextValue(Vec<i64>);
+impl Component<RealP> for NextValue {
+    fn execute(&self, _p: &RealP, st: &mut State<RealP>) -> ExecResult<()> {
+        let i = st.try_get_value::<Iterations>()? as usize;
+        st.insert(T0(self.0[(i + 1).min(self.0.len() - 1)]));
+        Ok(())
+    }
 }
 
 // ------------------------------------------------------------------------------------------------
